@@ -42,7 +42,8 @@ def sym_engine(ip, **over):
                   _position_keys=("a",), _model=None,
                   _position_chain=chain_stub(ip, "position_chain"), _transition_info_chain=chain_stub(ip, "transition_info_chain"),
                   _kernel_state_chain=chain_stub(ip, "kernel_state_chain"), _quantities_chain=chain_stub(ip, "quantities_chain"),
-                  _tuning_info_chain=chain_stub(ip, "tuning_info_chain"))
+                  _tuning_info_chain=chain_stub(ip, "tuning_info_chain"),
+                  _epoch_manager=PyObj("manager", has_more=PyFn(lambda ip_: ip_.ctx.fresh("manager_has_more", Bool), "has_more")))
     eng.f.update(over)
     c.assume(eng.f["_jitted_sample_duration"] >= 1)
     return eng
